@@ -39,7 +39,7 @@ is_6531_local (const char *start, const char *end)
     int qpair = 0;
     int quote = 0;
     int ch;
-    int prev = 0; /* previous index of non-ASCII character */
+    int prev = -1; /* byte index of the previous character, -1: none */
     utf8_decode_t u;
 
 
@@ -49,8 +49,10 @@ is_6531_local (const char *start, const char *end)
     utf8_decode_init (start, end - start, &u);
     while ((ch = utf8_decode_next (&u)) >= 0) {
         /* skip non-ASCII characters */
-        if (ch > 0x007f)
+        if (ch > 0x007f) {
+            prev = utf8_decode_at_byte (&u);
             continue;
+        }
 
         /* rfc5321 does not allow any CTRL chars */
 #ifndef RFC6531_FOLLOW_RFC5322
@@ -73,7 +75,7 @@ is_6531_local (const char *start, const char *end)
                 /* quote-strings are allowed at the start
                  * or with preciding '.' only
                  */
-                if (prev == 0 || start[prev] == '.')
+                if (prev < 0 || start[prev] == '.')
                     quote = 1;
                 else
                     return inverse(EEAV_LPART_MISPLACED_QUOTE);
